@@ -12,12 +12,14 @@ P_NOTE = ('Level is `other` because at least one clause of every property is onl
           'input or when it was discharged on the committed tree (ledger); undecided is never a violation.')
 
 CHECKS = {
- 'C01': ('other', 'P: the 15 parse actions (blueprint = exactly the tokens, optional parts None, trailing comment wins), blueprint builders incl. ColumnBlueprint.build (enum linking by last-dot split) and '
-         'ReferenceBlueprint.build (endpoints are the listed tables\' own Column objects), constructors, adders and Table.__getitem__ are discharged by z3 for all inputs; S: newline is significant; '
+ 'C01': ('other', 'P: the 15 parse actions (blueprint = exactly the tokens, optional parts None, trailing comment wins), the collecting action parse_blueprint (4 loop invariants), every blueprint builder '
+         '(ColumnBlueprint.build: enum linking by last-dot split; ReferenceBlueprint.build: endpoints are the listed tables\' own Column objects; TableGroup/Enum/Index/Note/Project builders; '
+         'get_reference_blueprints with nested invariants), constructors incl. the loops of Table.__init__/Enum.__init__, adders and Table.__getitem__ are discharged by z3 for all inputs; '
+         'TableBlueprint.build (3 loop invariants) and the second phase build_database (5 loop invariants) are verified in the thorough tier (minutes); S: newline is significant; '
          'B (bounded, never counted as proved): view(parse(surface(m, spelling))) == m over exhaustive per-element feature products and seeded documents, spelling invariance, alias shadowing. '
-         'The pyparsing matcher and the composite builders with effectful loops are outside the verifier\'s reach (DESIGN.md 2.7, 4)', '3/C01',
+         'The pyparsing matcher is outside the verifier\'s reach (DESIGN.md 2.7, 4)', '3/C01',
          'contracts on parse actions, builders and constructors (PyVC + z3) + bounded run-time contract on the real parser'),
- 'C02': ('other', 'P: 17 DBML element renderers equal canonical-text spec functions; L: the single-quoted literal of prepare_text_for_dbml reads back unchanged (induction; definitions checked against the real routines, bounded); '
+ 'C02': ('other', 'P: 28 DBML element renderers (every one: expression, note, sticky note, enum, column, index, reference in both forms, table header/indexes/table, table group, project) equal canonical-text spec functions; Table.get_refs/Column.get_refs verified; L: the single-quoted literal of prepare_text_for_dbml reads back unchanged (induction; definitions checked against the real routines, bounded); '
          'B (bounded): parse(db.dbml) has the same view and rendering is a fixpoint over API-built models of the DBML-expressible domain and the repository documents', '3/C02',
          'renderer contracts (PyVC + z3), induction lemma (z3/cvc5), bounded round-trip oracle on the real renderer+parser'),
  'C03': ('other', 'P: every SQL element renderer (column, index, enum, enum item, expression, note, table body/components/table) equals the DDL spec function of the model, schema-qualified names included; '
@@ -61,7 +63,7 @@ CHECKS = {
  'C16': ('other', 'P: element renderers and the registry dispatch (exact-type lookup, empty-string fallback), Database.__init__ stores the renderer classes; S: registries are exactly {class: handler}, separate per renderer, methods dispatch through cls, no memoisation; '
          'B (bounded): custom and subclassed renderer classes are used for database and elements, default pieces appear exactly once, purity under shuffled repeated evaluation. SQL render_db is under contract in the thorough tier only (2 obligations undecided)', '3/C16',
          'dispatch contracts (PyVC + z3), static registry obligations, bounded run-time contract with instrumented renderer classes'),
- 'C17': ('other', 'P: exceptional postconditions of check_attributes_for_sql, Reference._validate/table1/table2, validate_for_sql, validate_for_dbml, render gates; S: required_attributes cover the statement\'s attributes; '
+ 'C17': ('other', 'P: exceptional postconditions of check_attributes_for_sql, Reference._validate/table1/table2, validate_for_sql, validate_for_dbml, DBML render_reference (TableNotFoundError / DBMLError iff ...), Table.get_refs (UnknownDatabaseError), Column.get_refs (TableNotFoundError); S: required_attributes cover the statement\'s attributes; '
          'B (bounded, exhaustive over element kinds x missing attribute x construction route): the stated exception is raised', '3/C17', 'exceptional postconditions (PyVC + z3) + bounded exhaustive refusal matrix'),
  'C18': ('other', 'P: reorder_tables_for_sql returns a fresh permutation of its argument (sorted() trusted as a permutation; order unmodelled) and writes nothing; S: no memoisation; '
          'B (bounded, exhaustive over all DAGs up to 4 tables and most 5-table DAGs): permutation, determinism also after edits, and target-before-holder order read back from db.sql; '
